@@ -37,7 +37,20 @@ fn gen_strings(rng: &mut Rng, n: usize, alpha: &[char]) -> Vec<String> {
               "C/C=C\\C", "F/C=C/F", "C1=CC=CC=C1", "c1ccccc1", "[nH]1cccc1", "C\u{e9}C", "\u{e9}", "[\u{e9}]", "\u{feff}CC", "\u{feff}C(", "\u{feff}", "C\u{feff}", " CC", "CC ", "\u{a0}C", "\u{200b}C", "\tC", "C\n", "[\u{b2}H]", "[C:\u{663}]", "[\u{ff11}\u{ff13}C]", "C[N:\u{bd}]", "[C:1\u{ff12}]", "C%\u{663}1", "C\u{b2}", "[C@TB\u{b2}]", "[C+\u{663}]", "[CH\u{b2}]", "C(.O)N", "C(.O)1CC1", "CC(C(.[Na+])O)=O", "C1.[C@H]1(F)Cl", "C1.[C@@H]1(F)Cl", "C1.[C@]1(F)(Cl)Br", "C(.[C@H]1(F)Cl)1", "C12.[C@H]1(F)2", "C1C.[C@H]1(F)Cl", "[C@H]1(F)(Cl).C1", "C1.C.[C@@H]1(F)Cl", "[C@H](F)(Cl)1.C1", "C1[C@H]1(F)Cl", "N1OC[C@H0]1(F)Cl", "N1OC[C@@H0]1(F)Cl", "C1CC[C@H0]1(F)Cl", "N[13C@@H](C)C(=O)O", "[13C@@H]", "[13C@H]", "[18F-]", "[13CH3:1]", "[2H+]", "[15NH2+]", "[131I-:5]", "[999U@TB20H9-15:999]", "[0C@OH30H0+15:0]", "[001C]", "C%99CC%99", "C%10CC%101", "C%011CC%01", "C%01CC1", "C9CC9", "C0CC0",
               "C(C(C(C(C(C(C(C(C(C(C(C))))))))))))", "C((C))", "C(C)(C)(C)(C)(C)(C)", "[C@TB1](F)(Cl)(Br)(I)C", "[C@@OH30](F)(Cl)(Br)(I)(C)N", "C1CC2CC3CC4CC5CC6CC7CC8CC9CC%10CC%11CC1C2C3C4C5C6C7C8C9C%10C%11",
               "F/C=C/C=C\\C", "C/1=C/CCCC1", "[nH]1cccc1", "c1ccccc1-c2ccccc2", "C=1CCCCC=1", "C=1CCCCC1", "C1CCCCC=1", "C-1CCCCC=1", "C/1CCCCC\\1", "C/1CCCCC/1", "C(C(C(C)))C", "C1.C1", "C1(C)", "*", "[*]", "[*H]", "[HH1]", "Cl", "Br", "B", "Bx", "At", "Ts", "Tx", "A"] { v.push(s.to_string()) }
+    // hubs: ring digits written after 15..40 and after 254..257 branches, closures onto and from the hub in both orientations
+    for k in [15usize, 16, 17, 24, 25, 33, 40, 255, 256] {
+        let br = "(C)".repeat(k);
+        if k > 100 { for t in [format!("C{}1CC1", br), format!("CC{}1CC1", br), format!("C{}1(CC12)2", br)] { v.push(t) } continue }
+        for t in [format!("C{}1CC1", br), format!("CC{}1CC1", br), format!("C1{}CC1", br), format!("C{}1(CC12)2", br), format!("C{}1(CC1)", br), format!("C{}12CC1C2", br),
+                  format!("C1CC1{}", br), format!("C{}1CC1C2CC2", br), format!("C{}%99CC%99", br), format!("C{}=1CC1", br), format!("C{}1CC=1", br), format!("C{}1(C1)", br)] { v.push(t) } }
+    // many ring digits before an unmatched one; redundant percent spellings
+    v.push(format!("{}C1", "C1CC1".repeat(90))); v.push(format!("{}C1C1", "C1CC1".repeat(90)));
+    for t in ["C%05CC%05", "C1CC%01", "C(C=%07)CCC%07", "C%00CC%00", "C%09CC9", "C0CC%00", "C%10CC%10"] { v.push(t.to_string()) }
     while v.len() < n {
+        // one string in eight is the written form of a ring-dense graph (many closures open at once, digits re-used)
+        if rng.chance(1, 8) { let k = 4 + rng.below(6); let mut g: Vec<Atom> = (0..k).map(|_| Atom { kind: AtomKind::Aliphatic(purr_verif_harness::enums_gen::all_aliphatic().swap_remove(1)), bonds: vec![] }).collect();
+            for i in 0..k { for j in i + 1..k { if rng.chance(3, 4) { let at = rng.below(g[i].bonds.len() + 1); g[i].bonds.insert(at, Bond::new(BondKind::Elided, j)); let at = rng.below(g[j].bonds.len() + 1); g[j].bonds.insert(at, Bond::new(BondKind::Elided, i)) } } }
+            let mut w = Writer::new(); if let Ok(Ok(())) = guarded(|| walk(clone_graph(&g), &mut w)) { v.push(w.write()); continue } }
         let n = if rng.chance(1, 12) { 40 + rng.below(60) } else { rng.below(14) }; let h = if rng.chance(1, 2) { gen_history(rng, n) } else { gen_history_rings(rng, n) };
         let mut w = Writer::new(); replay(&h, &mut w); let text = w.write();
         match rng.below(10) {
@@ -78,6 +91,30 @@ fn reader_case(s: &str) -> String {
     let build = if ok && vb == "VOk" { coq_build(guarded(move || b.build())) } else { "B'Skip".into() };
     let text = if ok && vw == "VOk" { opt_text(guarded(move || w.write()).ok()) } else { "None".into() };
     format!("RC {} {} {} [{}] [{}] [{}] {} {} [{}; {}; {}]", coq_text(s), v, coq_evs(&rec.events), atoms.join("; "), rnums.join("; "), bonds.join("; "), build, text, vb, vw, vb2)
+}
+
+// ------------------------------------------------------------------ ref suite: the Rust reference against the Coq specification
+fn ref_case(h: &[Ev], starts: Option<(&dyn Fn(usize) -> usize, &dyn Fn(usize) -> usize, Vec<String>, Vec<String>)>) -> String {
+    use purr_verif_harness::reference::{denote, expected_bonds, RefErr};
+    let d = match denote(h) { Ok(g) => format!("(FOk {})", coq_graph(&g)), Err(RefErr::Join(a, b)) => format!("(FJoin {} {})", a, b),
+        Err(RefErr::Unmatched(v)) => format!("(FUnmatched [{}]%nat)", v.iter().map(|x| x.to_string()).collect::<Vec<_>>().join("; ")), Err(RefErr::Malformed) => "FMalformed".into() };
+    let natoms = h.iter().filter(|e| matches!(e, Ev::Root(_) | Ev::Extend(_, _))).count();
+    let (atoms, rnums, bonds) = match starts {
+        Some((fa, fr, atoms, rnums)) => { let m = expected_bonds(h, fa, fr); let lim = natoms.min(9) + 1; let mut q = vec![];
+            for i in 0..lim { for j in 0..lim { q.push(format!("({}, {}, {})%nat", i, j, match m.get(&(i, j)) { Some(c) => format!("Some {}", c), None => "None".into() })) } }
+            (atoms, rnums, q) }
+        None => (vec![], vec![], vec![]) };
+    format!("FC {} [{}] [{}] {} [{}]", coq_evs(h), atoms.join("; "), rnums.join("; "), d, bonds.join("; "))
+}
+fn ref_case_of_string(s: &str) -> Option<String> {
+    let mut rec = Recorder::new(); let mut trace = Trace::new();
+    match guarded(|| read(s, &mut rec, Some(&mut trace))) { Ok(Ok(())) => (), _ => return None }
+    let natoms = rec.events.iter().filter(|e| matches!(e, Ev::Root(_) | Ev::Extend(_, _))).count();
+    let nrnums = rec.events.iter().filter(|e| matches!(e, Ev::Join(_, _))).count();
+    let atoms: Vec<String> = (0..=natoms).map(|i| coq_opt_range(trace.atom(i))).collect();
+    let rnums: Vec<String> = (0..=nrnums).map(|i| coq_opt_range(trace.rnum(i))).collect();
+    let fa = |i: usize| trace.atom(i).map(|r| r.start).unwrap_or(0); let fr = |i: usize| trace.rnum(i).map(|r| r.start).unwrap_or(0);
+    Some(ref_case(&rec.events, Some((&fa, &fr, atoms, rnums))))
 }
 
 // ------------------------------------------------------------------ walk suite
@@ -180,17 +217,39 @@ fn main() {
             let corpus: Vec<Vec<Atom>> = vec![vec![], vec![star(vec![])], vec![star(vec![(e(), 1), (e(), 2)]), star(vec![(e(), 0)]), star(vec![(e(), 0), (e(), 1)])],
                 vec![star(vec![(e(), 0)])], vec![star(vec![(e(), 1), (e(), 1)]), star(vec![(e(), 0), (e(), 0)])], vec![star(vec![(BondKind::Up, 1)]), star(vec![(BondKind::Up, 0)])]];
             for g in corpus { cases.push(walk_case(&g)); bump("corpus") }
+            // one neighbour listed k times, with and without its counterpart
+            for k in [2usize, 24, 25, 26, 63, 64, 65, 255, 256, 257, 300] {
+                cases.push(walk_case(&[star((0..k).map(|_| (e(), 1)).collect()), star(vec![(e(), 0)])])); 
+                cases.push(walk_case(&[star(vec![(e(), 1)]), star((0..k).map(|_| (e(), 0)).collect())]));
+                cases.push(walk_case(&[star((0..k).map(|_| (e(), 1)).collect()), star((0..k).map(|_| (e(), 0)).collect())]));
+                cases.push(walk_case(&[star((0..k).map(|_| (e(), 1)).collect()), star(vec![])])); bump("corpus-many-duplicates") }
             while cases.len() < count {
                 let big = count > 5000;
-                let g = match rng.below(14) { 0..=4 => { bump("wf"); gen_wf_graph(&mut rng, 9) } 5 => { bump("wf-large"); gen_wf_graph(&mut rng, if big { 48 } else { 20 }) }
+                let g = match rng.below(15) { 0..=4 => { bump("wf"); gen_wf_graph(&mut rng, 9) } 5 => { bump("wf-large"); gen_wf_graph(&mut rng, if big { 48 } else { 20 }) }
                     10 => { bump("ladder"); let k = if big && rng.chance(1, 8) { 20 + rng.below(85) } else { 2 + rng.below(14) }; gen_ladder(&mut rng, k) }
                     11 => { bump("hub"); let d = if rng.chance(1, 6) { 20 + rng.below(50) } else { 3 + rng.below(6) }; gen_hub(&mut rng, d) }
                     12 => { let k = 2 + rng.below(6); let mut g = gen_ladder(&mut rng, k); let m = mutate_graph(&mut rng, &mut g); bump(&format!("ladder-mutant-{}", m)); g }
+                    14 => { // a duplicated (or re-kinded, or dropped) entry in the bond list of a hub of degree 17..70, also far from the arrival bond
+                        let d = 17 + rng.below(54); let mut g = gen_hub(&mut rng, d); let hub = (0..g.len()).max_by_key(|i| g[*i].bonds.len()).unwrap();
+                        let j = rng.below(g[hub].bonds.len()); let what = rng.below(4);
+                        match what { 0 | 1 => { let b = Bond::new(if what == 0 { g[hub].bonds[j].kind.clone() } else { gen_bk(&mut rng) }, g[hub].bonds[j].tid); let at = rng.below(g[hub].bonds.len() + 1); g[hub].bonds.insert(at, b) }
+                                     2 => { g[hub].bonds.remove(j); } _ => { let t = g[hub].bonds[j].tid; g[t].bonds.retain(|b| b.tid != hub) } }
+                        bump("large-hub-mutant"); g }
                     13 => { let d = 3 + rng.below(5); let mut g = gen_hub(&mut rng, d); let m = mutate_graph(&mut rng, &mut g); bump(&format!("hub-mutant-{}", m)); g }
                     6..=8 => { let mut g = gen_wf_graph(&mut rng, 7); let m = mutate_graph(&mut rng, &mut g); bump(&format!("mutant-{}", m)); g }
                     _ => { bump("junk"); gen_junk_graph(&mut rng, 5) } };
                 cases.push(walk_case(&g))
             } },
+        "ref" => {
+            // the reference round trip on well-formed graphs (tree, ring-dense, ladders, hubs)
+            for i in 0..count / 3 { let g = match i % 4 { 0 => gen_ladder(&mut rng, 2 + i % 7), 1 => gen_hub(&mut rng, 3 + i % 9), _ => gen_wf_graph(&mut rng, 3 + i % 12) };
+                cases.push(format!("GC {} {}", coq_graph(&g), coq_graph(&purr_verif_harness::reference::expected_roundtrip(&g)))); bump("round trip of a generated graph") }
+            for s in gen_strings(&mut rng, count / 2, &alpha) { if let Some(c) = ref_case_of_string(&s) { bump("from accepted string"); cases.push(c) } }
+            while cases.len() < count { let n = if rng.chance(1, 12) { 30 + rng.below(50) } else { 1 + rng.below(12) };
+                let mut h = if rng.chance(1, 2) { gen_history(&mut rng, n) } else { gen_history_rings(&mut rng, n) };
+                let joins: Vec<usize> = (0..h.len()).filter(|i| matches!(h[*i], Ev::Join(_, _))).collect();
+                if !joins.is_empty() && rng.chance(1, 3) { let i = *rng.pick(&joins); if rng.chance(1, 2) { h.remove(i); bump("ring token dropped") } else { let e = match &h[i] { Ev::Join(b, r) => Ev::Join(b.clone(), r.clone()), _ => unreachable!() }; let at = i + rng.below(h.len() - i); h.insert(at + 1, e); bump("ring token repeated") } }
+                bump("from generated history"); cases.push(ref_case(&h, None)) } },
         "hist" => while cases.len() < count {
             let n = if rng.chance(1, 12) { 30 + rng.below(50) } else { rng.below(12) }; let mut h = if rng.chance(1, 2) { gen_history(&mut rng, n) } else { gen_history_rings(&mut rng, n) };
             if rng.chance(1, 12) { let i = rng.below(h.len() + 1); h.insert(i, Ev::Pop(rng.below(4))); bump("nonconformant") } else { bump("conformant") }
@@ -217,25 +276,40 @@ fn main() {
                 let len = rng.below(40);
                 let seq: Vec<(usize, usize)> = (0..len).map(|_| { let a = rng.below(ids); let mut b = rng.below(ids); if a == b { b = (b + 1) % ids } (a, b) }).collect();
                 cases.push(pool_case(&seq)) } },
-        "atom" => while cases.len() < count {
+        "atom" => { { use purr_verif_harness::enums_gen::*;
+            for deg in [61usize, 62, 63, 64, 65, 84, 85, 86, 127, 128, 129, 254, 255, 256, 257, 300] { for bk in [BondKind::Quadruple, BondKind::Triple, BondKind::Double] { for h in [0usize, 1, 4, 9] { for sym in [5usize, 15] {
+                let kind = AtomKind::Bracket { isotope: None, symbol: BracketSymbol::Element(all_element().swap_remove(sym)), configuration: None, hcount: Some(all_virtual_hydrogen().swap_remove(h)), charge: None, map: None };
+                cases.push(atom_case(&Atom { kind, bonds: (0..deg).map(|i| Bond::new(bk.clone(), i + 1)).collect() })); bump("directed high degree") } } }
+                for kind in [AtomKind::Star, AtomKind::Aliphatic(all_aliphatic().swap_remove(1)), AtomKind::Aromatic(all_aromatic().swap_remove(1))] {
+                    cases.push(atom_case(&Atom { kind, bonds: (0..deg).map(|i| Bond::new(BondKind::Quadruple, i + 1)).collect() })) } } }
+            while cases.len() < count {
             let deg = match rng.below(10) { 0 => 250 + rng.below(60), 1 => rng.below(40), _ => rng.below(7) };
             let kind = if rng.chance(1, 2) { gen_kind(&mut rng) } else if rng.chance(1, 2) { AtomKind::Aliphatic(purr_verif_harness::enums_gen::all_aliphatic().swap_remove(rng.below(12))) } else { AtomKind::Aromatic(purr_verif_harness::enums_gen::all_aromatic().swap_remove(rng.below(6))) };
             let a = Atom { kind, bonds: (0..deg).map(|i| Bond::new(if deg > 40 { BondKind::Single } else { purr_verif_harness::enums_gen::all_bond_kind().swap_remove(rng.below(8)) }, i + 1)).collect() };
             bump(if deg > 200 { "degree>200" } else if deg > 6 { "degree7-40" } else { "degree<=6" });
-            cases.push(atom_case(&a)) },
+            cases.push(atom_case(&a)) } },
         "kind" => { let (total, bad, sample) = kind_sweep();
             dist.insert("sweep_kinds_written_and_read_back".into(), total); dist.insert("sweep_offenders".into(), bad.len());
             for k in bad.iter().chain(sample.iter()) { cases.push(kind_case_with(k, &mut rng, &alpha, true)) }
             while cases.len() < count { let k = if rng.chance(2, 3) { gen_bracket(&mut rng) } else { gen_kind(&mut rng) }; cases.push(kind_case(&k, &mut rng, &alpha)) } },
         _ => panic!("unknown suite"),
     }
-    let per = (cases.len() + shards - 1) / shards.max(1);
-    for (i, chunk) in cases.chunks(per.max(1)).enumerate() {
+    // round-robin over the shards, so that a run of expensive corpus cases does not land in one file
+    let nsh = shards.max(1).min(cases.len().max(1));
+    let mut buckets: Vec<Vec<String>> = (0..nsh).map(|_| vec![]).collect();
+    for (i, c) in cases.iter().enumerate() { buckets[i % nsh].push(c.clone()) }
+    for (i, chunk) in buckets.iter().enumerate() {
         let mut f = String::new();
         writeln!(f, "(* GENERATED by corr {} (seed from VERIF_SEED): implementation outputs on generated inputs *)", suite).unwrap();
         writeln!(f, "From Coq Require Import List NArith String.\nImport ListNotations.\nRequire Import P.Generated.Enums P.Spec.Values P.Model.Base P.Model.Reader P.Model.Walk P.Model.Builder P.Model.Token P.Corr.CorrLib.\nLocal Open Scope string_scope.").unwrap();
+        if suite == "ref" {
+            let (gc, fc): (Vec<&String>, Vec<&String>) = chunk.iter().partition(|c| c.starts_with("GC "));
+            writeln!(f, "Definition cases := [\n  {}\n].", fc.iter().map(|s| s.as_str()).collect::<Vec<_>>().join(";\n  ")).unwrap();
+            writeln!(f, "Definition gcases := [\n  {}\n].", gc.iter().map(|s| s.as_str()).collect::<Vec<_>>().join(";\n  ")).unwrap();
+            writeln!(f, "Eval vm_compute in List.app (run_ref_suite cases) (run_refg_suite gcases).").unwrap();
+        } else {
         writeln!(f, "Definition cases := [\n  {}\n].", chunk.join(";\n  ")).unwrap();
-        writeln!(f, "Eval vm_compute in run_{}_suite cases.", suite.trim_end_matches("_exh")).unwrap();
+        writeln!(f, "Eval vm_compute in run_{}_suite cases.", suite.trim_end_matches("_exh")).unwrap(); }
         std::fs::write(format!("{}/cases_{}_{}.v", outdir, suite, i), f).unwrap();
     }
     println!("{{\"suite\": \"{}\", \"cases\": {}, \"distribution\": {{{}}}, \"sample\": {:?}}}", suite, cases.len(), dist.iter().map(|(k, v)| format!("\"{}\": {}", k, v)).collect::<Vec<_>>().join(", "), cases.get(cases.len() / 2).map(|s| s.chars().take(300).collect::<String>()).unwrap_or_default());
